@@ -43,7 +43,7 @@ type Solver struct {
 
 // primaryMs: per-query budget of the incremental primary solver; on expiry the query goes to the fallback solver
 var primaryMs = func() int {
-	n := 3000
+	n := 600
 	fmt.Sscanf(os.Getenv("SYMGO_PRIMARY_MS"), "%d", &n)
 	return n
 }()
